@@ -627,6 +627,10 @@ def rounding_envs():
     out = []
     for (u, v), (x, y) in itertools.product(itertools.permutations(ROUNDING_TABLE[:6], 2), [(1, 3), (7, 2)]):
         out.append({"x": x, "y": y, "u": u, "v": v, "p": True, "q": False})
+    # signed zeros: x + 0.0, 0.0 - x, -1 * x differ only in the sign of a zero result
+    for u, v in [(0.0, 0.0), (0.0, 1.5), (1.5, 0.0), (-0.0, 0.0), (0.0, -0.0), (-0.0, -0.0), (-0.0, 1.5), (1.5, -0.0)]:
+        out.append({"x": 0, "y": 0, "u": u, "v": v, "p": True, "q": False})
+        out.append({"x": 1, "y": 3, "u": u, "v": v, "p": True, "q": False})
     return out
 
 
@@ -771,27 +775,44 @@ def confirm_kernel(rec, families):
     dec = rec["violation"].get("decoded")
     if dec is None or has_broadcast_target(comp.assignment):
         return out
-    k = 0
-    for name, t in dec["inputs"].items():
-        vals = []
-        for _ in t["vals"]:
-            vals.append(repr(ROUNDING_TABLE[k % len(ROUNDING_TABLE)]))
-            k += 1
-        t["vals"] = [str(__import__("fractions").Fraction(float(v))) for v in vals]
-    a = replay.real_run(req, dec, backend="llvm")
-    b = replay.real_run(req, dec, backend="cffi")
-    out["llvm"] = a.get("status")
-    out["cffi"] = b.get("status")
-    if a["status"] == "ok" and b["status"] == "ok":
-        oa, ob = a["output"], b["output"]
-        if oa["indices"] != ob["indices"] or [struct_bits(x) for x in oa["vals"]] != [struct_bits(x) for x in ob["vals"]]:
+    import copy
+
+    def valued(mode):
+        """Rounding-sensitive values, all +0.0, or zeros alternating with rounding-sensitive values (a result that
+        differs only in the sign of a zero needs zero operands)."""
+        d2 = copy.deepcopy(dec)
+        k = 0
+        for name, t in d2["inputs"].items():
+            vals = []
+            for _ in t["vals"]:
+                v = ROUNDING_TABLE[k % len(ROUNDING_TABLE)]
+                if mode == "zeros" or (mode == "mixed" and k % 2 == 0):
+                    v = 0.0
+                vals.append(str(__import__("fractions").Fraction(float(v))))
+                k += 1
+            t["vals"] = vals
+        return d2
+
+    for mode in ("rounding", "zeros", "mixed"):
+        dv = valued(mode)
+        a = replay.real_run(req, dv, backend="llvm")
+        b = replay.real_run(req, dv, backend="cffi")
+        out["llvm"] = a.get("status")
+        out["cffi"] = b.get("status")
+        if a["status"] == "ok" and b["status"] == "ok":
+            oa, ob = a["output"], b["output"]
+            if oa["indices"] != ob["indices"] or [struct_bits(x) for x in oa["vals"]] != [struct_bits(x) for x in ob["vals"]]:
+                out["confirmed"] = True
+                out["where"].append(f"evaluate_cffi and evaluate_tensora return different bits ({mode} values)")
+                out["llvm_vals"] = [repr(x) for x in oa["vals"]]
+                out["cffi_vals"] = [repr(x) for x in ob["vals"]]
+                out["inputs"] = dv["inputs"]
+                break
+        elif a["status"] != b["status"]:
             out["confirmed"] = True
-            out["where"].append("evaluate_cffi and evaluate_tensora return different bits")
-            out["llvm_vals"] = oa["vals"]
-            out["cffi_vals"] = ob["vals"]
-    elif a["status"] != b["status"]:
-        out["confirmed"] = True
-        out["where"].append(f"back ends behave differently: llvm {a['status']}, cffi {b['status']}")
+            out["where"].append(f"back ends behave differently: llvm {a['status']}, cffi {b['status']}")
+            break
+    dec = valued("rounding")
     # sanitizer builds of both emitted texts (gcc for the C text, clang for the LLVM module)
     from .. import kprog
 
